@@ -768,3 +768,239 @@ Print Assumptions C01_moment_state_exact_on_grid_all.
 Print Assumptions C01_windows_in_range_of_bound.
 Print Assumptions C01_generated_inputs_in_range.
 Print Assumptions C01_ts_vmean_correctly_rounded_on_grid.
+
+(* ================= AUDIT (notes/C01.md "Audit matrix"; Proofs/Audit01.v) ============================================
+   What the clause-by-clause audit found open and closed.  (A1)-(A9), (A13) hold for EVERY numeric carrier / null
+   dictionary (binary64 included) and are axiom-free; (A10)-(A12), (A14), (A15) are over option R.                    *)
+From Tevec Require Import Proofs.Driver Proofs.Audit01.
+
+(* (A1) the call, totally, for every add-emit-remove feature (the eight moment / weighted entry points and ts_vzscore), every
+   carrier: the only rejected input is window = 0 on a non-empty series — `assert!(window > 0 || len == 0)`, the same
+   assertion on both bodies; everything else returns the run over the (removed, new) pairs.  This is exactly what the
+   hypothesis `1 <= w` of (0)-(6) excludes. *)
+Theorem C01_ts_run_total :
+  forall (T St O : Type) (F : feat T St O) (body : bool) (w : nat) (xs : list T),
+    ts_run F body w xs =
+    if bad_window w xs then Panicked AssertFail
+    else Done (run (feat_cb F) (f_init F) (mapi (fun i v => (removed w xs i, v)) xs)).
+Proof. exact (@ts_run_total). Qed.
+
+Theorem C01_window0 :
+  forall (T St O : Type) (F : feat T St O) (body : bool) (xs : list T),
+    ts_run F body 0 xs = match xs with [] => Done [] | _ :: _ => Panicked AssertFail end.
+Proof. exact (@ts_run_window0). Qed.
+
+(* (A2) it returns iff window >= 1 or the series is empty; then exactly len outputs; never an uninitialised slot;
+   the empty series gives the empty result at every window *)
+Theorem C01_returns_iff :
+  forall (T St O : Type) (F : feat T St O) (body : bool) (w : nat) (xs : list T),
+    ((exists out, ts_run F body w xs = Done out) <-> (1 <= w \/ xs = [])) /\
+    (forall out, ts_run F body w xs = Done out -> length out = length xs) /\
+    (forall buf, ts_run F body w xs <> Uninit buf) /\
+    ts_run F body w [] = Done [].
+Proof.
+  intros T St O F body w xs. split; [apply ts_run_returns_iff|]. split; [apply ts_run_length|].
+  split; [apply ts_run_never_uninit|apply ts_run_empty].
+Qed.
+
+(* (A3) both driver bodies return the same outcome at EVERY window (0 included), for every feature and carrier *)
+Theorem C01_bodies_agree :
+  forall (T St O : Type) (F : feat T St O) (w : nat) (xs : list T), ts_run F true w xs = ts_run F false w xs.
+Proof. exact (@ts_run_bodies_agree). Qed.
+
+(* (A4) windows: w >= len makes every window the prefix 0..=i (an expanding window: nothing is ever removed from what
+   the outputs see), and in general the window at i has min(i+1, w) elements *)
+Theorem C01_window_beyond_length :
+  forall (T : Type) (w i : nat) (xs : list T),
+    i < length xs ->
+    (length xs <= w -> win w i xs = firstn (S i) xs) /\ (1 <= w -> length (win w i xs) = Nat.min (S i) w).
+Proof. intros T w i xs Hi. split; intros H; [apply win_beyond|apply win_full_length]; assumption. Qed.
+
+(* (A5) min_periods: `min_periods.unwrap_or(window / 2).min(window).max(k)` in closed form — omitted = max(w/2, k);
+   anything >= w acts as w (the statement's "min_periods <= w" loses nothing); never above w when k <= w *)
+Theorem C01_min_periods_effective :
+  forall (w k : nat),
+    mp_eff None w k = Nat.max (w / 2) k /\
+    (forall m, mp_eff (Some m) w k = mp_eff (Some (Nat.min m w)) w k) /\
+    (forall m, w <= m -> mp_eff (Some m) w k = Nat.max w k) /\
+    (forall mp, k <= mp_eff mp w k) /\ (forall mp, k <= w -> mp_eff mp w k <= w).
+Proof.
+  intros w k. split; [apply mp_eff_omitted|]. split; [intros m; apply mp_eff_clamp|].
+  split; [intros m; apply mp_eff_above|]. split; [intros mp; apply mp_eff_ge|intros mp; apply mp_eff_le_window].
+Qed.
+
+Theorem C01_min_periods_above_window :
+  forall (A : Type) (NA : Num A) (T : Type) (DT : IsNone T A) (w m : nat), w <= m ->
+    ts_vsum_f w (Some m) = ts_vsum_f w (Some w) /\ ts_vmean_f w (Some m) = ts_vmean_f w (Some w) /\
+    ts_vvar_f w (Some m) = ts_vvar_f w (Some w) /\ ts_vstd_f w (Some m) = ts_vstd_f w (Some w) /\
+    ts_vskew_f w (Some m) = ts_vskew_f w (Some w) /\ ts_vkurt_f w (Some m) = ts_vkurt_f w (Some w) /\
+    ts_vewm_f w (Some m) = ts_vewm_f w (Some w) /\ ts_vwma_f w (Some m) = ts_vwma_f w (Some w).
+Proof. intros A NA T DT. exact (@min_periods_above_window A NA T DT). Qed.
+
+(* (A6) EVERY carrier (the binary64 execution instance included): behind every output of the six moment entry points
+   (any emit), of ts_vewm and of ts_vwma stands a state whose count field is the number of non-null elements of the
+   window — the count never drifts, whatever the arithmetic does *)
+Theorem C01_count_tracks_window_every_carrier :
+  forall (A : Type) (NA : Num A) (T : Type) (DT : IsNone T A) (body : bool) (w : nat) (mp : option nat) (xs : list T),
+    1 <= w ->
+    (forall emit : @mom A -> A,
+      exists out, ts_run (mom_feat emit) body w xs = Done out /\ length out = length xs /\
+        forall i v, nth_error xs i = Some v ->
+          exists s, m_n s = cnt_valid (win w i xs) /\ nth_error out i = Some (emit s)) /\
+    (exists out, ts_run (ts_vewm_f w mp) body w xs = Done out /\ length out = length xs /\
+        forall i v, nth_error xs i = Some v ->
+          exists s, e_n s = cnt_valid (win w i xs) /\ nth_error out i = Some (ewm_emit w (mp_eff mp w 0) s)) /\
+    (exists out, ts_run (ts_vwma_f w mp) body w xs = Done out /\ length out = length xs /\
+        forall i v, nth_error xs i = Some v ->
+          exists s, w_n s = cnt_valid (win w i xs) /\ nth_error out i = Some (wma_emit (mp_eff mp w 0) s)).
+Proof.
+  intros A NA T DT body w mp xs Hw. split; [intros emit; apply mom_count_tracks; exact Hw|].
+  split; [apply ewm_count_tracks|apply wma_count_tracks]; exact Hw.
+Qed.
+
+(* (A7) ... hence below the effective min_periods all eight entry points return the carrier's NaN — exactly, at
+   binary64 too (`masked_below k out w xs`: position i holds nnan whenever the window at i has fewer than k non-null
+   elements) *)
+Theorem C01_below_min_periods_is_nan_every_carrier :
+  forall (A : Type) (NA : Num A) (T : Type) (DT : IsNone T A) (body : bool) (w : nat) (mp : option nat) (xs : list T),
+    1 <= w ->
+    (exists out, ts_run (ts_vsum_f w mp) body w xs = Done out /\ length out = length xs /\ masked_below (mp_eff mp w 0) out w xs) /\
+    (exists out, ts_run (ts_vmean_f w mp) body w xs = Done out /\ length out = length xs /\ masked_below (mp_eff mp w 0) out w xs) /\
+    (exists out, ts_run (ts_vvar_f w mp) body w xs = Done out /\ length out = length xs /\ masked_below (mp_eff mp w 2) out w xs) /\
+    (exists out, ts_run (ts_vstd_f w mp) body w xs = Done out /\ length out = length xs /\ masked_below (mp_eff mp w 2) out w xs) /\
+    (exists out, ts_run (ts_vskew_f w mp) body w xs = Done out /\ length out = length xs /\ masked_below (mp_eff mp w 3) out w xs) /\
+    (exists out, ts_run (ts_vkurt_f w mp) body w xs = Done out /\ length out = length xs /\ masked_below (mp_eff mp w 4) out w xs) /\
+    (exists out, ts_run (ts_vewm_f w mp) body w xs = Done out /\ length out = length xs /\ masked_below (mp_eff mp w 0) out w xs) /\
+    (exists out, ts_run (ts_vwma_f w mp) body w xs = Done out /\ length out = length xs /\ masked_below (mp_eff mp w 0) out w xs).
+Proof. intros A NA T DT. exact (@below_min_periods_is_nan A NA T DT). Qed.
+
+(* (A8) a window shorter than the statistic needs: var / std with w = 1, skew with w <= 2, kurt with w <= 3 return
+   NaN everywhere, whatever min_periods and whatever the data — every carrier *)
+Theorem C01_short_window_all_nan :
+  forall (A : Type) (NA : Num A) (T : Type) (DT : IsNone T A) (body : bool) (w : nat) (mp : option nat) (xs : list T),
+    1 <= w ->
+    (w < 2 -> ts_run (ts_vvar_f w mp) body w xs = Done (repeat nnan (length xs)) /\
+              ts_run (ts_vstd_f w mp) body w xs = Done (repeat nnan (length xs))) /\
+    (w < 3 -> ts_run (ts_vskew_f w mp) body w xs = Done (repeat nnan (length xs))) /\
+    (w < 4 -> ts_run (ts_vkurt_f w mp) body w xs = Done (repeat nnan (length xs))).
+Proof. intros A NA T DT. exact (@short_window_all_nan A NA T DT). Qed.
+
+(* (A9) dead code: the `else { acc }` arm of the fold closure of ts_vfdiff (rolling.rs:116; the coverage report shows the
+   correspondence run never reaches it) cannot be reached by ANY input — the closure is folded over a window with
+   n == window valid elements (a window never has more than `window` elements) or over the not_none-filtered window.
+   ts_vfdiff_nn is ts_vfdiff with that arm removed (Proofs/Audit01.v); every carrier, both bodies, every window. *)
+Theorem C01_vfdiff_null_arm_is_dead_code :
+  forall (A : Type) (NA : Num A) (T : Type) (DT : IsNone T A) (body : bool) (d : A) (w : nat) (mp : option nat)
+         (xs : list T),
+    ts_vfdiff body d w mp xs = ts_vfdiff_nn body d w mp xs.
+Proof. intros A NA T DT. exact (@vfdiff_null_branch_dead A NA T DT). Qed.
+
+(* (A10) min_periods = Some 0: the rolling sum is NEVER null (an all-null window sums to 0); mean / ewm / wma are null
+   exactly on the windows without a valid element *)
+Theorem C01_min_periods_zero :
+  forall (body : bool) (w : nat) (xs : list XR), 1 <= w ->
+  (exists out, ts_run (ts_vsum_f w (Some 0)) body w xs = Done out /\ length out = length xs /\
+     forall i, i < length xs -> nth_error out i = Some (Some (sumR (valid (win w i xs))))) /\
+  (exists out, ts_run (ts_vmean_f w (Some 0)) body w xs = Done out /\ length out = length xs /\
+     forall i, i < length xs ->
+       nth_error out i = Some (let V := valid (win w i xs) in if length V =? 0 then None else Some (meanR V))) /\
+  (exists out, ts_run (ts_vewm_f w (Some 0)) body w xs = Done out /\ length out = length xs /\
+     forall i, i < length xs ->
+       nth_error out i = Some (let V := valid (win w i xs) in
+                               if length V =? 0 then None else Some (ewmR (1 - 2 / INR w) V))) /\
+  (exists out, ts_run (ts_vwma_f w (Some 0)) body w xs = Done out /\ length out = length xs /\
+     forall i, i < length xs ->
+       nth_error out i = Some (let V := valid (win w i xs) in if length V =? 0 then None else Some (wmaR V))).
+Proof. exact min_periods_zero. Qed.
+
+(* (A11) the ewm and wma accumulators never drift either ((0) is the moment accumulator): behind every output the ewm state
+   holds the count and sum_k oma^k x_(k), the wma state the count, the sum and sum_t t x_t of the valid window *)
+Theorem C01_ewm_state_tracks_window :
+  forall (w : nat) (mp : option nat) (body : bool) (xs : list XR), 1 <= w ->
+    exists out, ts_run (ts_vewm_f w mp) body w xs = Done out /\ length out = length xs /\
+      forall i v, nth_error xs i = Some v ->
+        exists s, nth_error out i = Some (ewm_emit w (mp_eff mp w 0) s) /\
+          e_n s = nv (win w i xs) /\ e_q s = Some (ewsum (1 - 2 / INR w) (valid (win w i xs))).
+Proof.
+  intros w mp body xs Hw. destruct (ewm_state_tracks_window w Hw mp body xs) as (out & H1 & H2 & H3).
+  exists out. split; [exact H1|]. split; [exact H2|]. intros i v Hv.
+  destruct (H3 i v Hv) as (s & (Hn & Hq) & Ho). exists s. split; [exact Ho|]. split; assumption.
+Qed.
+Theorem C01_wma_state_tracks_window :
+  forall (w : nat) (mp : option nat) (body : bool) (xs : list XR), 1 <= w ->
+    exists out, ts_run (ts_vwma_f w mp) body w xs = Done out /\ length out = length xs /\
+      forall i v, nth_error xs i = Some v ->
+        exists s, nth_error out i = Some (wma_emit (mp_eff mp w 0) s) /\
+          w_n s = nv (win w i xs) /\ w_sum s = Some (sumR (valid (win w i xs))) /\
+          w_xt s = Some (lwsum (valid (win w i xs))).
+Proof.
+  intros w mp body xs Hw. destruct (wma_state_tracks_window mp body w xs Hw) as (out & H1 & H2 & H3).
+  exists out. split; [exact H1|]. split; [exact H2|]. intros i v Hv.
+  destruct (H3 i v Hv) as (s & (Hn & Hs & Hx) & Ho). exists s. split; [exact Ho|]. repeat split; assumption.
+Qed.
+
+(* (A12) the PLAIN family on a series holding a NaN at position j (outside the property's "finite numeric series", and
+   outside (8)/(11), which take null-free input): the accumulator is poisoned for ever — every output at a position
+   >= j, also long after the NaN has left the window, is NaN for ts_sum / ts_mean / ts_skew / ts_kurt and exactly 0
+   (min_periods permitting) for ts_var / ts_std, whose guard `var > EPS` is false on NaN *)
+Theorem C01_plain_nan_poisons :
+  forall (body : bool) (w : nat) (mp : option nat) (xs : list XR) (j : nat),
+  1 <= w -> nth_error xs j = Some None ->
+  let Dn : IsNone XR XR := IsNone_never in
+  exists osum omean ovar ostd oskew okurt,
+    ts_run (ts_vsum_f (DT := Dn) w mp) body w xs = Done osum /\
+    ts_run (ts_vmean_f (DT := Dn) w mp) body w xs = Done omean /\
+    ts_run (ts_vvar_f (DT := Dn) w mp) body w xs = Done ovar /\
+    ts_run (ts_vstd_f (DT := Dn) w mp) body w xs = Done ostd /\
+    ts_run (ts_vskew_f (DT := Dn) w mp) body w xs = Done oskew /\
+    ts_run (ts_vkurt_f (DT := Dn) w mp) body w xs = Done okurt /\
+    forall i, j <= i < length xs ->
+      nth_error osum i = Some None /\ nth_error omean i = Some None /\
+      nth_error oskew i = Some None /\ nth_error okurt i = Some None /\
+      nth_error ovar i = Some (if mp_eff mp w 2 <=? Nat.min (S i) w then Some 0%R else None) /\
+      nth_error ostd i = Some (if mp_eff mp w 2 <=? Nat.min (S i) w then Some 0%R else None).
+Proof. exact plain_nan_poisons. Qed.
+
+(* (A13) ... so the sentence "the window state never drifts away from the window it describes" is REFUTED for the
+   plain family once a NaN has passed: window [1] gives NaN, window [1; 2] gives variance 0 (replayed on the real code,
+   notes/C01.md; the repository's test_ts_mean expects the NaN tail, so this is recorded, not repaired) *)
+Theorem C01_plain_never_drifts_refuted :
+  let Dn : IsNone XR XR := IsNone_never in
+  forall body : bool,
+  (exists out, ts_run (ts_vsum_f (DT := Dn) 1 (Some 1)) body 1 [None; Some 1%R] = Done out /\
+     win 1 1 [None; Some 1%R] = [Some 1%R] /\ nth_error out 1 = Some None) /\
+  (exists out, ts_run (ts_vvar_f (DT := Dn) 2 (Some 2)) body 2 [None; Some 1%R; Some 1%R; Some 2%R] = Done out /\
+     win 2 3 [None; Some 1%R; Some 1%R; Some 2%R] = [Some 1%R; Some 2%R] /\ nth_error out 3 = Some (Some 0%R)).
+Proof. exact plain_never_drifts_refuted. Qed.
+
+(* non-vacuity of the audit's implications *)
+Example C01_example_audit_windows :
+  bad_window 0 [1%Z] = true /\ bad_window 0 (@nil Z) = false /\ 3 <= 5 /\ 1 < length [1%Z; 2%Z] /\
+  mp_eff (Some 9) 4 0 = 4 /\ mp_eff None 5 0 = 2 /\ mp_eff (Some 0) 1 2 = 2.
+Proof. repeat split; vm_compute; auto. Qed.
+Example C01_example_audit_masked :                      (* the mask premise of (A7) is met and not met in one series *)
+  cnt_valid (DT := IsNoneF64) (win 2 1 [nan; 1; 2]%float) = 1 /\ cnt_valid (DT := IsNoneF64) (win 2 2 [nan; 1; 2]%float) = 2 /\
+  ts_run (ts_vsum_f (NA := NumF64) (DT := IsNoneF64) 2 (Some 2)) true 2 [nan; 1; 2]%float = Done [nan; nan; 3]%float.
+Proof. repeat split; vm_compute; reflexivity. Qed.
+Example C01_example_audit_short_window :                (* (A8) at binary64: kurt with w = 3 *)
+  ts_run (ts_vkurt_f (NA := NumF64) (DT := IsNoneF64) 3 (Some 0)) false 3 [1; 2; 4; 8]%float = Done [nan; nan; nan; nan]%float.
+Proof. vm_compute. reflexivity. Qed.
+Example C01_example_audit_poison_premise : nth_error [Some 1%R; None; Some 3%R] 1 = Some None /\ 1 <= 1 < 3.
+Proof. split; [reflexivity|split; auto]. Qed.
+
+Print Assumptions C01_ts_run_total.
+Print Assumptions C01_window0.
+Print Assumptions C01_returns_iff.
+Print Assumptions C01_bodies_agree.
+Print Assumptions C01_window_beyond_length.
+Print Assumptions C01_min_periods_effective.
+Print Assumptions C01_min_periods_above_window.
+Print Assumptions C01_count_tracks_window_every_carrier.
+Print Assumptions C01_below_min_periods_is_nan_every_carrier.
+Print Assumptions C01_short_window_all_nan.
+Print Assumptions C01_vfdiff_null_arm_is_dead_code.
+Print Assumptions C01_min_periods_zero.
+Print Assumptions C01_ewm_state_tracks_window.
+Print Assumptions C01_wma_state_tracks_window.
+Print Assumptions C01_plain_nan_poisons.
+Print Assumptions C01_plain_never_drifts_refuted.
